@@ -20,9 +20,11 @@
 import EasyMl.Props.C09Views
 import EasyMl.Lemmas.Survivor
 import EasyMl.Props.C11
+import EasyMl.Props.C12
+import EasyMl.Model.RecordContainer
 
 namespace EasyMl.C09
-open EasyMl EasyMl.Iter EasyMl.Spec
+open EasyMl EasyMl.Iter EasyMl.Spec EasyMl.View
 
 set_option linter.unusedSectionVars false
 
@@ -83,6 +85,8 @@ theorem matrix_iter_of_inv (m : Matrix α) (hlen : m.data.length = m.rows * m.co
   rw [hlen]
   exact ⟨hk, by omega⟩
 
+example : (⟨[5, 6, 7, 8, 9, 10], 2, 3⟩ : Matrix Nat).data.length = 2 * 3 := rfl
+
 /-- **Matrices after any history** of removals, insertions, retentions, transpositions, writes
     (C11's alphabet, including operations that are refused): the matrix that is left satisfies
     the invariant, hence `matrix_iter_of_inv` applies to it. -/
@@ -97,5 +101,188 @@ theorem matrix_iter_after_history (m : Matrix α) (h : m.Inv) (ops : List (Matri
         (fun k => k / (m.run ops).rows + (k % (m.run ops).rows) * (m.run ops).columns) :=
   let hi := (C11.history_never_empty m h ops).2.2
   ⟨hi, (matrix_iter_of_inv _ hi).1, (matrix_iter_of_inv _ hi).2.1⟩
+
+/-! ## `map_mut` as mutable iteration -/
+
+/-- **`Tensor::map_mut` is the mutable iterator writing `g(old)`**, including a closure that
+    panics: after `p` calls of the writing mutable iterator over a valid tensor the storage, read
+    in order, is exactly what `map_mut` leaves behind when its closure panics at call `p`
+    (`Survivor.mapMut t g (some p)`: the closure's results in the first `p` cells *in iteration
+    order*, the old contents from there on; the complete map when `p ≥ len`). -/
+theorem tensor_mut_write_eq_mapMut (t : Tensor ν α) (ht : Survivor.TInv t) (g : α → α)
+    (mem0 : Nat → α) (hmem : t.data = (List.range t.data.length).map mem0) (p : Nat) :
+    ∃ cells st mem',
+      collect (writeNext shapeNext (TSource.ofTensor t).cell g) p
+          (ShapeIter.new (t.shape.map (·.2)), mem0) = .ok (cells, (st, mem')) ∧
+      (List.range t.data.length).map mem' = (Survivor.mapMut t g (some p)).state.data := by
+  have htf := (Survivor.tinv_iff_tryFrom t).1 ht
+  have F := (tensor_faithful t.shape t.data t htf).2
+  have hlen : prod (t.shape.map (·.2)) = t.data.length := by rw [ht.1]; rfl
+  have h := mut_writes_eq_map (shape_enumerates (t.shape.map (·.2))) F mem0 g p
+  refine ⟨_, _, _, h, ?_⟩
+  have hm := Survivor.mapLoop_eq g p t.data 0
+  rw [Nat.zero_add] at hm
+  simp only [Survivor.mapMut, hm]
+  rw [hlen]
+  -- both sides are "g on the cells before p, the old value from p on"
+  have hL : (List.range t.data.length).map
+      (fun c => if c ∈ (List.range (min p t.data.length)).map (fun k => k) then g (mem0 c)
+        else mem0 c) =
+      (List.range t.data.length).map (fun i => if i < p then g (mem0 i) else mem0 i) := by
+    apply List.map_congr_left
+    intro c hc
+    have hc' := List.mem_range.mp hc
+    have : (c ∈ (List.range (min p t.data.length)).map (fun k => k)) ↔ c < p := by
+      simp only [List.map_id', List.mem_range]; omega
+    simp only [this]
+  rw [hL]
+  by_cases hp : p < t.data.length
+  · simp only [hp, if_true]
+    conv => rhs; rw [hmem]
+    exact (take_map_append_drop mem0 g t.data.length p).symm
+  · simp only [hp, if_false]
+    conv => rhs; rw [hmem]
+    rw [List.map_map]
+    apply List.map_congr_left
+    intro c hc
+    have hc' := List.mem_range.mp hc
+    have : c < p := by omega
+    simp [this]
+
+/-- non-vacuity: a valid 2×2 tensor whose data are read off a memory -/
+example : ∃ t : Tensor String Nat, Survivor.TInv t ∧
+    t.data = (List.range t.data.length).map (fun c => c + 5) :=
+  ⟨⟨[5, 6, 7, 8], [("a", 2), ("b", 2)], [2, 1]⟩, ⟨rfl, by decide, by decide, rfl⟩, rfl⟩
+
+/-! ## `AsRecords` -/
+
+/-- **`AsRecords` yields the records of the container's cells in iteration order** — the link to
+    C06's container model: for any enumerating iterator over the `(number, index)` elements of a
+    record container `c` (`TensorIterator` / `RowMajorIterator` over it), the items of the
+    `AsRecords` iterator (`mapNext`), call by call until exhaustion, are exactly `c.toRecs`
+    (Model/RecordContainer.lean: `Record::from_existing(number, history)` per element). -/
+theorem asRecords_items_eq_toRecs {σ R : Type} (c : Cont R)
+    {next : σ → Outcome (Option (R × Nat) × σ)} {s0 : σ} {item : Nat → Option (R × Nat)}
+    {state : Nat → σ} (E : Enumerates next s0 c.elems.length item state)
+    (hitem : ∀ k, item k = c.elems[k]?) :
+    ∃ st, drain (mapNext (fun e : R × Nat => (⟨e.1, c.history, e.2⟩ : Rec R)) next)
+        (c.elems.length + 1) s0 = .ok (c.toRecs, st) := by
+  have E' := E.map (fun e : R × Nat => (⟨e.1, c.history, e.2⟩ : Rec R))
+  obtain ⟨h1, _⟩ := consumers_drain E' 0 (c.elems.length + 1) (by omega)
+  rw [E'.start] at h1
+  refine ⟨state (0 + (c.elems.length - 0 + 1)), ?_⟩
+  rw [h1]
+  congr 2
+  have := filterMap_range'_getElem?_map
+    (fun e : R × Nat => (⟨e.1, c.history, e.2⟩ : Rec R)) c.elems []
+  simp only [List.length_nil, List.nil_append] at this
+  simp only [Nat.sub_zero, Cont.toRecs, hitem]
+  exact this
+
+/-! ## Every source the harness (or a user of the safe API) can construct is well formed -/
+
+/-- The tensor sources of the C09 workload, as a grammar — "constructible with adaptor nesting
+    depth at most `n`": a leaf `Tensor` that satisfies the container invariant (in particular
+    after any history of in-place operations, `tensor_iter_after_history`), under any nesting of
+    the adaptors' constructors, stacked or chained with others. -/
+def ConstructibleN : Nat → View ν α → Prop
+  | 0, v => ∃ id t, v = .tensor id t ∧ Survivor.TInv t ∧ t.data.length ≤ usizeMax
+  | n + 1, v =>
+    ConstructibleN n v ∨
+    (∃ s, ConstructibleN n s ∧
+      ((∃ rs, mkRange s rs = some v) ∨ (∃ ms, mkMask s ms = some v) ∨ (∃ p, mkIndex s p = some v) ∨
+       (∃ e, mkExpansion s e = some v) ∨ (∃ ns, mkRename s ns = some v) ∨
+       (∃ ns, mkReverse s ns = some v) ∨ (∃ ns, mkAccess s ns = some v) ∨
+       (∃ ns, mkTranspose s ns = some v))) ∨
+    (∃ ss, (∀ s ∈ ss, ConstructibleN n s) ∧
+      ((∃ along, ss.length ≤ usizeMax ∧ mkStack ss along = some v) ∨
+       (∃ along, (∀ a, (chainLens (shapes ss) a).sum ≤ usizeMax) ∧ mkChain ss along = some v)))
+
+/-- a tensor source the safe API can construct -/
+def Constructible (v : View ν α) : Prop := ∃ n, ConstructibleN n v
+
+theorem ConstructibleN.wf : ∀ (n : Nat) (v : View ν α), ConstructibleN n v → v.WF
+  | 0, v, h => by
+    obtain ⟨id, t, rfl, ht, hfit⟩ := h
+    simp only [View.WF]
+    exact ⟨⟨ht.2.1, ht.2.2.1⟩, ht.2.2.2, ht.1, hfit⟩
+  | n + 1, v, h => by
+    have C := C02.constructors_establish_wf (ν := ν) (α := α)
+    rcases h with h | ⟨s, hs, h⟩ | ⟨ss, hs, h⟩
+    · exact ConstructibleN.wf n v h
+    · have hw := ConstructibleN.wf n s hs
+      obtain ⟨_, _, h3, _, _, _, h7, _, _, _, h11, h12, h13, h14, h15, h16⟩ := C.2.2.2.1 s v hw
+      rcases h with ⟨x, h⟩ | ⟨x, h⟩ | ⟨x, h⟩ | ⟨x, h⟩ | ⟨x, h⟩ | ⟨x, h⟩ | ⟨x, h⟩ | ⟨x, h⟩
+      · exact h3 x h
+      · exact h7 x h
+      · exact h11 x h
+      · exact h12 x h
+      · exact h13 x h
+      · exact h14 x h
+      · exact h15 x h
+      · exact h16 x h
+    · have hw : ∀ s ∈ ss, s.WF := fun s hm => ConstructibleN.wf n s (hs s hm)
+      obtain ⟨hst, hch⟩ := C.2.2.2.2.1 ss v hw
+      rcases h with ⟨along, hn, h⟩ | ⟨along, hsum, h⟩
+      · exact hst along hn h
+      · exact hch along hsum h
+
+/-- the matrix sources of the workload: a `Matrix` of any size (the size is all the iterators
+    see; after any history by `matrix_iter_after_history`), under any nesting of `MatrixRange`
+    (clipped, possibly empty) and `MatrixReverse` -/
+inductive ConstructibleM : MSource Nat → Prop
+  | leaf (rows columns : Nat) : ConstructibleM (MSource.ofMatrix rows columns)
+  | range (src : MSource Nat) (h : ConstructibleM src) (rs rl cs cl : Nat) :
+      ConstructibleM (src.range rs rl cs cl)
+  | reverse (src : MSource Nat) (h : ConstructibleM src) (r c : Bool) :
+      ConstructibleM (src.reverse r c)
+
+/-- **Every source the workload (or any user of the safe API) can construct is a well-formed
+    iterator source** — so `mut_items_distinct`, `owned_moves_once`, `copy_kth`, `withIndex_kth`,
+    `mut_writes_eq_map`, `*_len_eq_count` can be read without a hypothesis on the source:
+    (1) tensor sources: any nesting of `TensorRange/Mask/Index/Expansion/Rename/Reverse/Access/
+    Transpose`, `TensorStack`, `TensorChain` over leaves that satisfy the container invariant,
+    with distinct leaves;
+    (2) such leaves are what any history of in-place operations leaves behind;
+    (3) matrix sources: `Matrix`, `MatrixRange`, `MatrixReverse` nestings, empty views included;
+    (4) C12's view stacks (partitions, maps, tensor round trips) over matrices. -/
+theorem every_constructible_source_wellFormed :
+    (∀ v : View ν α, Constructible v → v.leafIds.Nodup → (TSource.ofView v).WellFormed) ∧
+    (∀ (t : Tensor ν α) (ops : List (Survivor.Op ν α)) (id : Nat), Survivor.TInv t →
+      (Survivor.run t ops).data.length ≤ usizeMax →
+      Constructible (View.tensor id (Survivor.run t ops))) ∧
+    (∀ src : MSource Nat, ConstructibleM src → src.WellFormed) ∧
+    (∀ e : MatrixView.MExpr, e.LeavesOk → e.msource.WellFormed) := by
+  refine ⟨?_, ?_, ?_, ?_⟩
+  · rintro v ⟨n, hn⟩ hnd
+    exact view_source_wellFormed v (ConstructibleN.wf n v hn) hnd
+  · intro t ops id ht hfit
+    exact ⟨0, id, _, rfl, Survivor.run_inv t ht ops, hfit⟩
+  · intro src h
+    induction h with
+    | leaf rows columns => exact ofMatrix_wellFormed rows columns
+    | range src _ rs rl cs cl ih => exact range_wellFormed src ih rs rl cs cl
+    | reverse src _ r c ih => exact reverse_wellFormed src ih r c
+  · intro e hle
+    exact (C12.view_stack_is_iterator_source e hle).1
+
+/-- non-vacuity: a chain of two tensors under a reverse is constructible (depth 2) -/
+example : Constructible
+    (View.reverse (View.chain [View.tensor 0 ⟨[0, 1], [("a", 2)], [1]⟩,
+      View.tensor 1 ⟨[0], [("a", 1)], [1]⟩] 0) [true] : View String Nat) := by
+  refine ⟨2, Or.inr (Or.inl ⟨View.chain [View.tensor 0 ⟨[0, 1], [("a", 2)], [1]⟩,
+    View.tensor 1 ⟨[0], [("a", 1)], [1]⟩] 0, ?_, Or.inr (Or.inr (Or.inr (Or.inr (Or.inr
+      (Or.inl ⟨["a"], rfl⟩)))))⟩)⟩
+  refine Or.inr (Or.inr ⟨[View.tensor 0 ⟨[0, 1], [("a", 2)], [1]⟩,
+    View.tensor 1 ⟨[0], [("a", 1)], [1]⟩], ?_, Or.inr ⟨"a", ?_, rfl⟩⟩)
+  · intro s hs
+    simp only [List.mem_cons, List.mem_nil_iff, or_false] at hs
+    rcases hs with rfl | rfl
+    · exact ⟨0, _, rfl, ⟨rfl, by decide, by decide, rfl⟩, by decide⟩
+    · exact ⟨1, _, rfl, ⟨rfl, by decide, by decide, rfl⟩, by decide⟩
+  · intro a
+    cases a with
+    | zero => decide
+    | succ a => simp [chainLens, View.shapes, View.shape, usizeMax]
 
 end EasyMl.C09
